@@ -35,6 +35,8 @@ LoadRev(lines) == LoadWith(lines, <<0, 1, 2>>, TRUE)
 \* the mutant: no rule (dependants first)
 LoadUnordered(lines) == LoadWith(lines, <<2, 1, 0>>, FALSE)
 OrderIndependent == IF OrderRule THEN LoadRev(SaveLines(st)) = Restored(st) ELSE LoadUnordered(SaveLines(st)) = Restored(st)
+\* replaying a serialised sub-tree restores the state whenever no re-initialising port stands behind its dependant in the table
+SerLaw == SerRoundTripHolds(st) => Deserialized(st) = st
 Out == IF "OUT" \in DOMAIN IOEnv THEN IOEnv.OUT ELSE "none"
 Ops == script \o << [op |-> "saveload", seed |-> Len(script)] >>
 SimPick == Len(script) = MaxMsgs /\ script[Len(script)].addr = "/pt" /\ script[Len(script)].ty = "T"
